@@ -19,12 +19,23 @@ UNITS = [OpenDetect("list"), OpenDetect("explicit")] + \
         [Mutate(out, bak, "normal", False, k) for k in ("sm", "ssc") for out in ("input", "other") for bak in (False, True)]
 
 
+def _decodes(raw, e):
+    try:
+        raw.decode(e)
+        return True
+    except UnicodeError:
+        return False
+
+
 def witness_search(tier, seed):
-    import os, tempfile, shutil, simfile
+    import os, tempfile, shutil, simfile, itertools
     d = tempfile.mkdtemp(prefix="pyvc-c05-")
     try:
         samples = [("utf-8", "#TITLE:日本;#ARTIST:x;"), ("cp1252", "#TITLE:caf\xe9;"), ("cp932", "#TITLE:テスト;"), ("utf-8", "#VERSION:0.83;#TITLE:a;#NOTEDATA:;#NOTES:0000;")]
-        for enc, text in samples:
+        orders = [None, ["cp932", "utf-8"], ["cp1252"], ["cp949", "cp1252", "utf-8"]]
+        for (enc, text), encs in itertools.product(samples, orders):
+            if not any(_decodes(text.encode(enc), e) for e in (encs or ["utf-8", "cp1252", "cp932", "cp949"])):
+                continue      # nothing in the list decodes the sample: the error clause, not this one
             for out, bak in ((None, None), ("out.sm", None), (None, "bak.sm"), ("out.sm", "bak.sm")):
                 for f in os.listdir(d):
                     os.remove(os.path.join(d, f))
@@ -34,25 +45,32 @@ def witness_search(tier, seed):
                 open(p, "wb").write(raw)
                 other = os.path.join(d, "other.txt")
                 open(other, "wb").write(b"keep")
-                sf0, enc0 = simfile.open_with_detected_encoding(p)
-                kw = {}
+                ekw = {"try_encodings": encs} if encs else {}
+                first = next(e for e in (encs or ["utf-8", "cp1252", "cp932", "cp949"]) if _decodes(raw, e))
+                sf0, enc0 = simfile.open_with_detected_encoding(p, **ekw)
+                if enc0 != first:
+                    return dict(input=dict(text=text, encoding=enc, try_encodings=encs), detail=f"detected {enc0}, the first listed encoding that decodes the file is {first}")
+                kw = dict(ekw)
                 if out:
                     kw["output_filename"] = os.path.join(d, out)
                 if bak:
                     kw["backup_filename"] = os.path.join(d, bak)
                 with simfile.mutate(p, **kw) as sf:
+                    if str(sf) != str(sf0):
+                        return dict(input=dict(text=text, encoding=enc, try_encodings=encs, out=out, backup=bak),
+                                    detail="mutate yielded a simfile other than the file decoded in the first listed encoding that decodes it")
                     sf.title = (sf.title or "") + "!"
                     edited = str(sf)
                 outp = kw.get("output_filename", p)
                 got = open(outp, "rb").read().decode(enc0)
                 if got.replace("\r\n", "\n") != edited:
-                    return dict(input=dict(text=text, encoding=enc, out=out, backup=bak), detail="output file is not the edited simfile in the detected encoding")
+                    return dict(input=dict(text=text, encoding=enc, try_encodings=encs, out=out, backup=bak), detail="output file is not the edited simfile in the detected encoding")
                 if bak and open(kw["backup_filename"], "rb").read().decode(enc0).replace("\r\n", "\n") != str(sf0):
-                    return dict(input=dict(text=text, encoding=enc, out=out, backup=bak), detail="backup is not the original simfile")
+                    return dict(input=dict(text=text, encoding=enc, try_encodings=encs, out=out, backup=bak), detail="backup is not the original simfile")
                 if out and open(p, "rb").read() != raw:
-                    return dict(input=dict(text=text, encoding=enc, out=out, backup=bak), detail="input modified although an output name was given")
+                    return dict(input=dict(text=text, encoding=enc, try_encodings=encs, out=out, backup=bak), detail="input modified although an output name was given")
                 if open(other, "rb").read() != b"keep" or set(os.listdir(d)) != {"in" + ext, "other.txt"} | ({out} if out else set()) | ({bak} if bak else set()):
-                    return dict(input=dict(text=text, encoding=enc, out=out, backup=bak), detail="another file was created or changed")
+                    return dict(input=dict(text=text, encoding=enc, try_encodings=encs, out=out, backup=bak), detail="another file was created or changed")
         # a backup name equal to the input or output name is refused before anything is written
         for out, bak in ((None, "in.sm"), ("out.sm", "out.sm"), ("out.sm", "in.sm")):
             for f in os.listdir(d):
